@@ -39,18 +39,22 @@ def stage_work(idx, stage, nranks):
         return {pre + 'only': {'A': 27, 'G': 64}}
     if idx == 5:   # names out of cost order, equal totals with different splits
         return {pre + n: {'A': a, 'G': g} for n, a, g in [('z', 3, 5), ('a', 5, 3), ('m', 4, 4), ('b', 1, 9), ('y', 9, 1), ('c', 2, 2)]}
+    if idx == 6:   # the first stage holds no K-FAC layer at all (e.g. embeddings only); the others do
+        return {} if stage == 0 else {pre + f'l{i}': {'A': 8 + i, 'G': 8} for i in range(2)}
+    if idx == 7:   # only the last-but-one... every odd stage is empty
+        return {} if stage % 2 == 1 else {pre + f'l{i}': {'A': 3, 'G': 5 + i} for i in range(3)}
     raise IndexError(idx)
 
 
-NFAM = 6
+NFAM = 8
 
 
 class C12(Prop):
     id = 'C12'
     title = 'GPT-NeoX assignment is consistent across the 3-D topology'
-    rule = ('Exhaustive: every (pipe, data, model) with product <= 24 (quick) / <= 64 (thorough), EVERY local rank, 6 families of per-stage cost '
+    rule = ('Exhaustive: every (pipe, data, model) with product <= 24 (quick) / <= 64 (thorough), EVERY local rank, 8 families of per-stage cost '
             'dictionaries (uniform, ties with more layers than ranks, non-square MLP costs with A != G, zeros + one giant, single layer, equal '
-            'totals with different splits) plus Hypothesis-drawn topologies and dictionaries. GPTNeoXAssignment is instantiated on every rank '
+            'totals with different splits, a first stage without any layer, every odd stage without layers) plus Hypothesis-drawn topologies and dictionaries. GPTNeoXAssignment is instantiated on every rank '
             'inside a static fake world in which torch.distributed.new_group records its arguments per rank. Oracle: per stage all ranks agree '
             'on one inverse worker per layer, it is a rank of the stage, both factors coincide and the assignment is a valid least-loaded greedy '
             'placement (tie-tolerant replay of C17 with the stage as the only group, co-located); factor_worker is in the rank\'s model-parallel '
@@ -77,7 +81,9 @@ class C12(Prop):
             nl = draw(st.integers(1, 8))
             names = draw(st.permutations([f'L{i}' for i in range(nl)]))
             work = [[n, draw(st.one_of(cost, st.just(tie))), draw(st.one_of(cost, st.just(tie)))] for n in names]
-            return {'kind': 'gen', 'topo': [p, d, m], 'work': work}
+            # stages without any K-FAC layer (their ranks must still take part in every group creation)
+            empty = sorted(draw(st.sets(st.integers(0, p - 1), max_size=p))) if draw(st.integers(0, 3)) == 0 else []
+            return {'kind': 'gen', 'topo': [p, d, m], 'work': work, 'empty_stages': empty}
         return gen()
 
     def enumerate(self, tier, shard, nshards):
@@ -104,7 +110,7 @@ class C12(Prop):
                         return violation(f'topology (pipe,data,model)=({p},{d},{m}) family {idx}: {bad[1]}', bad[0],
                                          labels={'kind': 'enum'})
             else:
-                wk = lambda s, n: {f's{s}.{nm}': {'A': a, 'G': g} for nm, a, g in case['work']}
+                wk = lambda s, n: {} if s in case.get('empty_stages', []) else {f's{s}.{nm}': {'A': a, 'G': g} for nm, a, g in case['work']}
                 bad = self._check(p, d, m, wk)
                 inner += p * d * m
                 if bad:
